@@ -155,7 +155,7 @@ func (r *Result) Merge(o *Result) {
 	for _, c := range o.Caps {
 		dup := false
 		for _, d := range r.Caps {
-			if d == c {
+			if capKey(d) == capKey(c) {
 				dup = true
 			}
 		}
@@ -177,6 +177,17 @@ func (r *Result) Merge(o *Result) {
 	if o.WallS > r.WallS {
 		r.WallS = o.WallS
 	}
+}
+
+// capKey drops the numbers of a cap message so that the same cap hit in several shards is listed once.
+func capKey(s string) string {
+	b := make([]byte, 0, len(s))
+	for i := 0; i < len(s); i++ {
+		if s[i] < '0' || s[i] > '9' {
+			b = append(b, s[i])
+		}
+	}
+	return string(b)
 }
 
 // Hash is a short stable digest used for outcome de-duplication.
